@@ -2,6 +2,8 @@
 from __future__ import annotations
 
 import math
+import os
+import random as pyrandom
 import sys
 from fractions import Fraction
 
@@ -14,6 +16,9 @@ import vlib
 from vlib import Violation, coq_Q
 
 from agilerl.algorithms.dqn_rainbow import RainbowDQN
+from agilerl.components.data import Transition
+from agilerl.components.replay_buffer import MultiStepReplayBuffer, PrioritizedReplayBuffer
+from agilerl.hpo.mutation import Mutations
 
 OBS_DIM = 3
 
@@ -22,6 +27,10 @@ DYADIC = [(2, 0.0, 1.0), (3, 0.0, 1.0), (5, 0.0, 4.0), (5, -2.0, 2.0), (11, 0.0,
           (51, 0.0, 200.0), (51, -10.0, 10.0), (3, -1.0, 0.0)]
 NONDYADIC = [(51, 0.0, 13.1), (21, 0.0, 0.3), (51, -100.0, -99.7), (11, -1.3, 2.9), (3, 0.1, 0.7), (5, 0.0, 0.7),
              (21, 0.0, 13.1), (11, 0.0, 0.3), (2, -0.3, 0.6), (51, 0, 10)]
+# large magnitudes, all-negative and narrow-at-large-offset ranges; num_atoms at the constructor edge that still works (2)
+LARGE = [(11, -1000.0, 1000.0), (5, 1000.0, 1001.0), (21, -20000.0, -100.0), (2, -1.0e6, 1.0e6), (3, 0.0, 1.0e5)]
+PREPS = ["fresh", "learned", "clone", "mutated", "mutated_param", "reloaded", "chain"]
+OBS_KINDS = ["vector", "image", "dict"]
 GAMMAS = [0.99, 0.5, 1.0, 0.9, 0.25]
 CLASSES = ["inside", "on_atom", "above", "below", "at_vmax", "at_vmin", "far_above", "far_below", "on_atom_shift", "inside"]
 
@@ -80,7 +89,8 @@ class C18(vlib.Driver):
     shard = 12
 
     # ---------------------------------------------------------------- generation
-    def one_case(self, rng, cfg, B=None, mode=None, classes=None, gamma=None, nstep=None, A=None):
+    def one_case(self, rng, cfg, B=None, mode=None, classes=None, gamma=None, nstep=None, A=None, prep=None,
+                 source=None, obs_kind=None):
         N, vmin, vmax = cfg
         B = B or (rng.randint(1, 3) if N > 21 else rng.randint(1, 8) if N <= 5 else rng.randint(1, 5))
         A = A or rng.choice([2, 3] if N <= 21 else [2])
@@ -106,7 +116,12 @@ class C18(vlib.Driver):
         return {"N": N, "vmin": vmin, "vmax": vmax, "B": B, "A": A, "gamma": gamma, "nstep": nstep, "mode": mode,
                 "prior_eps": rng.choice([1e-6, 1e-6, 0.01]), "partial": rng.random() < 0.5,
                 "net_seed": rng.randrange(10 ** 6), "rows1": rows1, "rowsn": rowsn,
-                "weights": weights, "wshape": rng.choice(["col", "col", "flat"])}
+                "weights": weights, "wshape": rng.choice(["col", "col", "flat"]),
+                # state of the agent when it is observed, how the batches reach learn(), kind of observation space
+                "prep": prep or rng.choice(["fresh", "fresh", "fresh"] + PREPS),
+                "source": source or ("buffer" if rng.random() < 0.2 else "direct"),
+                "obs_kind": obs_kind or (rng.choice(["image", "dict"]) if (N <= 11 and rng.random() < 0.15) else "vector"),
+                "stream_seed": rng.randrange(10 ** 6)}
 
     def generate(self, tier, rng):
         cases = []
@@ -124,6 +139,24 @@ class C18(vlib.Driver):
         # gamma = 1 on dyadic supports: every atom of a not-done row lands exactly on an atom
         for cfg in DYADIC[:6]:
             cases.append(self.one_case(rng, cfg, gamma=1.0, classes=["on_atom_shift"], mode="combined"))
+        # gamma = 0 (the bootstrap term vanishes for every row), 1-step / n-step / combined
+        for cfg, mode in (((5, 0.0, 4.0), "one"), ((11, -5.0, 5.0), "nstep"), ((3, 0.1, 0.7), "combined"), ((2, 0.0, 1.0), "combined")):
+            cases.append(self.one_case(rng, cfg, gamma=0.0, mode=mode, classes=["inside", "above", "on_atom"]))
+        # large-magnitude / all-negative / narrow-at-offset ranges, N = 2
+        for cfg in LARGE:
+            for cls in (["inside", "at_vmax"], ["above", "at_vmin"]):
+                cases.append(self.one_case(rng, cfg, B=2, classes=cls))
+        # every agent state x every observation kind x both batch sources at least once, all three modes
+        k = 0
+        for prep in PREPS:
+            for obs_kind in OBS_KINDS:
+                source = ["direct", "buffer"][k % 2]
+                mode = ["one", "nstep", "combined"][k % 3]
+                k += 1
+                cases.append(self.one_case(rng, rng.choice([(5, 0.0, 4.0), (3, 0.0, 1.0), (11, 0.0, 0.3), (5, -2.0, 2.0)]),
+                                           prep=prep, obs_kind=obs_kind, source=source, mode=mode))
+        for prep in ("fresh", "learned", "clone", "mutated"):       # the other source for the vector kind
+            cases.append(self.one_case(rng, (5, 0.0, 0.7), prep=prep, obs_kind="vector", source="buffer", mode="combined"))
         nseed = 70 if tier == "quick" else 600
         for i in range(nseed):
             cfg = rng.choice(DYADIC + NONDYADIC)
@@ -144,11 +177,71 @@ class C18(vlib.Driver):
             return [1.0] * len(ws)
         return [0.5 / (1 + (k % 3)) for k in range(len(ws))]
 
-    def build(self, case, weights=None):
+    @staticmethod
+    def obs_space_of(kind):
+        if kind == "image":
+            return spaces.Box(0, 255, (3, 16, 16), dtype=np.uint8)
+        if kind == "dict":
+            return spaces.Dict({"a": spaces.Box(-1, 1, (OBS_DIM,), dtype=np.float32), "b": spaces.Discrete(4)})
+        return spaces.Box(-1, 1, (OBS_DIM,), dtype=np.float32)
+
+    @staticmethod
+    def sample_obs(kind, n):
+        """n observations as tensors (what a replay buffer holds)"""
+        if kind == "image":
+            return torch.randint(0, 256, (n, 3, 16, 16), dtype=torch.uint8)
+        if kind == "dict":
+            return {"a": torch.randn(n, OBS_DIM), "b": torch.randint(0, 4, (n,))}
+        return torch.randn(n, OBS_DIM)
+
+    def prepare(self, ag, case, kind, warm):
+        """bring the agent into the state in which it is observed (never only 'freshly built')"""
+        prep = case.get("prep", "fresh")
+        seed = case["net_seed"] % 1000
+
+        def learned(a):
+            a.learn(warm[0].clone(), n_experiences=(warm[1].clone() if case["mode"] != "one" else None), per=True)
+            return a
+
+        def mutated(a, arch):
+            m = Mutations(no_mutation=0, architecture=1 if arch else 0, new_layer_prob=0.3, parameters=0 if arch else 1,
+                          activation=0, rl_hp=0, rand_seed=seed)
+            return m.mutation([a])[0]
+
+        def reloaded(a):
+            d = vlib.BUILD / (self.pid + vlib.ALT_TAG)
+            d.mkdir(parents=True, exist_ok=True)
+            path = d / f"ckpt_{os.getpid()}.pt"
+            try:
+                a.save_checkpoint(str(path))
+                return RainbowDQN.load(str(path))
+            finally:
+                if path.exists():
+                    path.unlink()
+        if prep == "learned":
+            return learned(ag)
+        if prep == "clone":
+            return learned(ag).clone()
+        if prep == "mutated":                 # observed right after the mutation, no learn step in between
+            return mutated(learned(ag), True)
+        if prep == "mutated_param":
+            return mutated(ag, False)
+        if prep == "reloaded":
+            return reloaded(learned(ag))
+        if prep == "chain":                   # clone -> mutate -> clone -> save/load
+            return reloaded(mutated(ag.clone(), True).clone())
+        return ag
+
+    def build(self, case):
         torch.manual_seed(case["net_seed"])
+        np.random.seed(case["net_seed"] % (2 ** 31))
+        pyrandom.seed(case["net_seed"])
         N, A, B = case["N"], case["A"], case["B"]
-        obs_space = spaces.Box(-1, 1, (OBS_DIM,), dtype=np.float32)
-        if case["partial"]:
+        kind = case.get("obs_kind", "vector")
+        obs_space = self.obs_space_of(kind)
+        if kind != "vector":
+            net_config = None if case["partial"] else {"head_config": {"hidden_size": [16]}}
+        elif case["partial"]:
             net_config = {"encoder_config": {"hidden_size": [16]}}
         else:
             net_config = {"encoder_config": {"hidden_size": [16], "activation": "ReLU"}, "head_config": {"hidden_size": [16]}}
@@ -158,20 +251,51 @@ class C18(vlib.Driver):
         with torch.no_grad():               # make online and target differ and the distributions far from uniform
             for net in (ag.actor, ag.actor_target):
                 for p in net.parameters():
-                    p.add_(0.6 * torch.randn_like(p))
+                    p.add_((0.6 if kind == "vector" else 0.3) * torch.randn_like(p))
 
-        ws = self.case_weights(case) if weights is None else weights
+        ws = self.case_weights(case)
         wt = torch.tensor(ws, dtype=torch.float32)
         wt = wt.reshape(B, 1) if case.get("wshape", "col") == "col" else wt.reshape(B)
 
-        def batch(rows):
+        def batch(rows, w=wt):
             return TensorDict({
-                "obs": torch.randn(B, OBS_DIM), "next_obs": torch.randn(B, OBS_DIM),
+                "obs": self.sample_obs(kind, B), "next_obs": self.sample_obs(kind, B),
                 "action": torch.tensor([[r["a"]] for r in rows], dtype=torch.long),
                 "reward": torch.tensor([[r["r"]] for r in rows], dtype=torch.float32),
                 "done": torch.tensor([[float(r["d"])] for r in rows], dtype=torch.float32),
-                "weights": wt, "idxs": torch.arange(B)}, batch_size=[B])
+                "weights": w, "idxs": torch.arange(B)}, batch_size=[B])
+        if case.get("prep", "fresh") != "fresh":
+            ones = torch.ones(B, 1)
+            ag = self.prepare(ag, case, kind, (batch(case["rows1"], ones), batch(case["rowsn"], ones)))
+        if case.get("source", "direct") == "buffer":
+            b1, bn = self.buffer_batches(ag, case, kind)
+            return ag, b1, bn
         return ag, batch(case["rows1"]), batch(case["rowsn"])
+
+    def buffer_batches(self, ag, case, kind):
+        """the batches as the training loop obtains them: transitions go through MultiStepReplayBuffer.add and
+        PrioritizedReplayBuffer.add, priorities are updated once (non-uniform weights), then per.sample(B, beta) and
+        n_step_memory.sample_from_indices(idxs)"""
+        B, A = case["B"], case["A"]
+        rng = pyrandom.Random(case.get("stream_seed", 0))
+        T = B + case["nstep"] + 3
+        per = PrioritizedReplayBuffer(max_size=T + 2, alpha=0.6)
+        nsb = MultiStepReplayBuffer(max_size=T + 2, n_step=case["nstep"], gamma=case["gamma"])
+        pool = [r for r in case["rows1"] + case["rowsn"]]
+        for t in range(T):
+            r = pool[t % len(pool)]
+            o, o2 = self.sample_obs(kind, 1), self.sample_obs(kind, 1)
+            tr = Transition(obs=o, action=torch.tensor([rng.randrange(A)]), reward=torch.tensor([r["r"]], dtype=torch.float32),
+                            next_obs=o2, done=torch.tensor([1.0 if (r["d"] and rng.random() < 0.6) else 0.0]),
+                            batch_size=[1]).to_tensordict()
+            one = nsb.add(tr)
+            if one is not None:
+                per.add(one)
+        n = len(per)
+        per.update_priorities(torch.arange(n).reshape(-1, 1), np.array([0.25 + (k % 4) for k in range(n)], dtype=np.float32))
+        b1 = per.sample(B, 0.4)
+        bn = nsb.sample_from_indices(b1["idxs"])
+        return b1, bn
 
     @staticmethod
     def read_projection(ag, b, gamma, N, A):
@@ -182,7 +306,7 @@ class C18(vlib.Driver):
             for k in range(N):
                 def fwd(x, q=True, log=False, _k=k):
                     if log:
-                        n = x.shape[0]
+                        n = b.batch_size[0]
                         out = torch.zeros(n, A, N)
                         out[:, :, _k] = -1.0
                         return out
@@ -202,17 +326,26 @@ class C18(vlib.Driver):
         N, A, B = case["N"], case["A"], case["B"]
         obs = {"support": [float(x) for x in ag.support], "delta_z": float(ag.delta_z), "parts": {}, "errors": {}}
         gam = {"1": case["gamma"], "n": case["gamma"] ** case["nstep"]}
-        for part, b in (("1", b1), ("n", bn)):
+        obs["rows"] = {}
+        for part, b, crows in (("1", b1, case["rows1"]), ("n", bn, case["rowsn"])):
+            direct = case.get("source", "direct") == "direct"
+            obs["rows"][part] = [{"r": float(b["reward"].reshape(-1)[k]), "d": float(b["done"].reshape(-1)[k]),
+                                  "a": int(b["action"].reshape(-1)[k]), "cls": crows[k]["cls"] if direct else "buffer"}
+                                 for k in range(B)]
             with torch.no_grad():
-                online = ag.actor(b["next_obs"], q=False)
-                qv = ag.actor(b["next_obs"])
-                target = ag.actor_target(b["next_obs"], q=False)
-                logp = ag.actor(b["obs"], q=False, log=True)
-                logp_next = ag.actor(b["next_obs"], q=False, log=True)
+                nx, ox = ag.preprocess_observation(b["next_obs"]), ag.preprocess_observation(b["obs"])
+                online = ag.actor(nx, q=False)
+                qv = ag.actor(nx)
+                target = ag.actor_target(nx, q=False)
+                logp = ag.actor(ox, q=False, log=True)
+                logp_next = ag.actor(nx, q=False, log=True)
             rec = {"online": online.tolist(), "q": qv.tolist(), "target": target.tolist(), "logp": logp.tolist(), "proj": None}
-            # the three read-outs of the distributional head on the same input must describe one distribution
-            rec["head_dev"] = float((logp_next.double().exp().clamp(min=1e-3) - online.double()).abs().max())
+            # the three read-outs of the distributional head on the same input must describe one distribution:
+            # p = clamp(softmax, 1e-3) renormalised to mass one (92c49c5), log p = log_softmax, q = sum p z
+            cl = logp_next.double().exp().clamp(min=1e-3)
+            rec["head_dev"] = float((cl / cl.sum(-1, keepdim=True) - online.double()).abs().max())
             rec["head_lognorm"] = float(logp.double().exp().sum(-1).sub(1.0).abs().max())
+            rec["head_mass"] = float(max((online.double().sum(-1) - 1.0).abs().max(), (target.double().sum(-1) - 1.0).abs().max()))
             try:
                 rec["proj"] = self.read_projection(ag, b, gam[part], N, A).tolist()
             except Exception as e:  # noqa: BLE001 — the property says "no exception"
@@ -225,20 +358,25 @@ class C18(vlib.Driver):
                     obs["errors"]["proj_rev" + part] = f"{type(e).__name__}: {e}"[:300]
             obs["parts"][part] = rec
         obs["prio"] = None
+        import copy
+        snap = (copy.deepcopy(ag.actor.state_dict()), copy.deepcopy(ag.actor_target.state_dict()))   # weights and noise buffers
         try:
             loss, idxs, prio = ag.learn(b1.clone(), n_experiences=(bn.clone() if case["mode"] != "one" else None), per=True)
             obs["prio"] = [float(x) for x in np.asarray(prio).reshape(-1)]
             obs["loss"] = float(loss)
         except Exception as e:  # noqa: BLE001
             obs["errors"]["learn"] = f"{type(e).__name__}: {e}"[:300]
-        # the same agent and batches rebuilt from the same seed, learn() called with different importance weights:
-        # the returned priorities must not depend on the weights
-        obs["weights"] = self.case_weights(case)
+        # the same agent (networks and noise restored to the state before learn) and the same batches, learn() called with
+        # different importance weights: the returned priorities must not depend on the weights
+        obs["weights"] = [float(x) for x in b1["weights"].reshape(-1)]
         obs["weights_alt"] = self.other_weights(obs["weights"])
         obs["prio_alt"] = None
         try:
-            ag2, c1, cn = self.build(case, weights=obs["weights_alt"])
-            _l, _i, prio2 = ag2.learn(c1.clone(), n_experiences=(cn.clone() if case["mode"] != "one" else None), per=True)
+            ag.actor.load_state_dict(snap[0])
+            ag.actor_target.load_state_dict(snap[1])
+            c1 = b1.clone()
+            c1["weights"] = torch.tensor(obs["weights_alt"], dtype=torch.float32).reshape(b1["weights"].shape)
+            _l, _i, prio2 = ag.learn(c1, n_experiences=(bn.clone() if case["mode"] != "one" else None), per=True)
             obs["prio_alt"] = [float(x) for x in np.asarray(prio2).reshape(-1)]
         except Exception as e:  # noqa: BLE001
             obs["errors"]["learn_alt"] = f"{type(e).__name__}: {e}"[:300]
@@ -260,6 +398,13 @@ class C18(vlib.Driver):
                 self.qmat(rec["logp"][k]), r["a"]))
         return "[" + "; ".join(out) + "]"
 
+    @staticmethod
+    def rows_of(case, obs, part):
+        """the rows as learn() received them (from the buffers when source = buffer)"""
+        if obs is not None and "rows" in obs:
+            return obs["rows"][part]
+        return case["rows1"] if part == "1" else case["rowsn"]
+
     def coq_term(self, case, obs):
         p1, pn = obs["parts"]["1"], obs["parts"]["n"]
         mode = {"one": "OneStep", "nstep": "NStep", "combined": "Combined"}[case["mode"]]
@@ -272,7 +417,7 @@ class C18(vlib.Driver):
         cfg = "{| natoms := %d%%nat; vmin := %s; vmax := %s |}" % (case["N"], coq_Q(case["vmin"]), coq_Q(case["vmax"]))
         return ("check_case %s %s %d%%nat %s %s %s %s %s %s %s %s %s %s" % (
             cfg, coq_Q(case["gamma"]), case["nstep"], coq_Q(case["prior_eps"]), mode,
-            self.samples(case["rows1"], p1), self.samples(case["rowsn"], pn), self.qlist(obs["support"]),
+            self.samples(self.rows_of(case, obs, "1"), p1), self.samples(self.rows_of(case, obs, "n"), pn), self.qlist(obs["support"]),
             self.qmat(p1["q"]), self.qmat(pn["q"]), optflat(p1), optflat(pn), prio))
 
     # ---------------------------------------------------------------- oracle (independent of the Coq model)
@@ -291,7 +436,8 @@ class C18(vlib.Driver):
                                  f"delta_z={obs['delta_z']!r} support={obs['support']} [{tag}]"))
         gam = {"1": case["gamma"], "n": case["gamma"] ** case["nstep"]}
         ces = {}
-        for part, rows in (("1", case["rows1"]), ("n", case["rowsn"])):
+        for part in ("1", "n"):
+            rows = self.rows_of(case, obs, part)
             rec = obs["parts"][part]
             if rec["proj"] is None:
                 continue
@@ -301,8 +447,11 @@ class C18(vlib.Driver):
             if qerr > 1e-4 * (1.0 + absmax):
                 out.append(Violation("head", f"head-q:{part}", f"actor(next_obs) is not the expectation sum_i p_i z_i of actor(next_obs, q=False): "
                                      f"max deviation {qerr!r} [{tag}]"))
+            if rec.get("head_mass", 0.0) > 1e-5:
+                out.append(Violation("head", f"head-mass:{part}", f"a return distribution of actor / actor_target (q=False) does not have total mass one: "
+                                     f"max |sum p - 1| = {rec.get('head_mass')!r} (state of the agent: {case.get('prep', 'fresh')}) [{tag}]"))
             if rec.get("head_dev", 0.0) > 1e-5 or rec.get("head_lognorm", 0.0) > 1e-4:
-                out.append(Violation("head", f"head:{part}", f"actor(x, q=False) is not clamp(exp(actor(x, q=False, log=True)), 1e-3) "
+                out.append(Violation("head", f"head:{part}", f"actor(x, q=False) is not the renormalised clamp(exp(actor(x, q=False, log=True)), 1e-3) "
                                      f"(max deviation {rec.get('head_dev')!r}) or the log-distribution is not normalised "
                                      f"(|sum exp - 1| = {rec.get('head_lognorm')!r}) [{tag}]"))
             ce_rows = []
@@ -372,7 +521,8 @@ class C18(vlib.Driver):
     def key(self, case):
         k = (case["N"], case["vmin"], case["vmax"], case["gamma"], case["nstep"], case["mode"], case["B"],
              tuple((r["cls"], r["d"]) for r in case["rows1"]), tuple((r["cls"], r["d"]) for r in case["rowsn"]),
-             tuple(self.case_weights(case)), case.get("wshape", "col"))
+             tuple(self.case_weights(case)), case.get("wshape", "col"),
+             case.get("prep", "fresh"), case.get("source", "direct"), case.get("obs_kind", "vector"))
         return repr(k)
 
     def row_branches(self, case, row, g):
@@ -382,7 +532,7 @@ class C18(vlib.Driver):
         dz = (vmax - vmin) / (N - 1)
         labs = set()
         for j in range(N):
-            t = Fraction(row["r"]) + (1 - row["d"]) * Fraction(g) * (vmin + j * dz)
+            t = Fraction(row["r"]) + (1 - Fraction(row["d"])) * Fraction(g) * (vmin + j * dz)
             if t < vmin:
                 t = vmin; labs.add("tz-clamped-low")
             elif t > vmax:
@@ -409,9 +559,12 @@ class C18(vlib.Driver):
                 "weights=" + ("ones" if all(w == 1.0 for w in self.case_weights(case)) else "non-uniform"),
                 f"weights-shape={case.get('wshape', 'col')}"]
         br = set()
-        for rows, g in ((case["rows1"], case["gamma"]), (case["rowsn"], case["gamma"] ** case["nstep"])):
+        labs += [f"prep={case.get('prep', 'fresh')}", f"source={case.get('source', 'direct')}", f"obs_kind={case.get('obs_kind', 'vector')}"]
+        if case["gamma"] == 0:
+            labs.append("gamma=0")
+        for rows, g in ((self.rows_of(case, obs, "1"), case["gamma"]), (self.rows_of(case, obs, "n"), case["gamma"] ** case["nstep"])):
             for r in rows:
-                labs.append(f"reward={r['cls']},done={r['d']}")
+                labs.append(f"reward={r['cls']},done={int(r['d'])}")
                 br |= self.row_branches(case, r, g)
         labs += [f"branch:{b}" for b in sorted(br)]
         if obs["errors"]:
